@@ -119,7 +119,7 @@ def enable_realize_trace() -> None:
         st = []
         while fr is not None:
             fn = fr.f_code.co_filename
-            if "/repo/" in fn or "/verif/vt" in fn:
+            if "/semantiva/" in fn or "/verif/vt" in fn:
                 st.append("%s:%d:%s" % (fn.split("/")[-1], fr.f_lineno, fr.f_code.co_name))
             fr = fr.f_back
         key = tuple(st[:4])
